@@ -43,6 +43,12 @@ _ARGUMENT_LIST = f"{_ARGUMENT}(?:,{_ARGUMENT})*"
 _SIGNATURE = f"^{_ARGUMENT_LIST}->{_ARGUMENT_LIST}$"
 
 
+def _split_names_and_positions(arg: str) -> Tuple[Tuple[str, ...], Tuple[str, ...]]:
+    """Split the text of one signature argument into its axis names and its axis positions."""
+    pairs = re.findall(f"({_AXIS_NAME}):({_AXIS_POSITION})", arg)
+    return tuple(n for n, _ in pairs), tuple(p for _, p in pairs)
+
+
 def _maybe_unpack_vector_component(
     data: Union[xr.DataArray, Dict[str, xr.DataArray]],
 ) -> xr.DataArray:
@@ -230,23 +236,16 @@ def _parse_signature_from_string(
 
     in_txt, out_txt = signature.split("->")
 
-    in_ax_names = []
-    for arg in re.findall(_ARGUMENT, in_txt):
-        # Delete the axis positions so they aren't matched as axis names
-        only_names = re.sub(_AXIS_POSITION, "", arg)
-        in_ax_names.append(tuple(re.findall(_AXIS_NAME, only_names)))
-
-    out_ax_names = []
-    for arg in re.findall(_ARGUMENT, out_txt):
-        only_names = re.sub(_AXIS_POSITION, "", arg)
-        out_ax_names.append(tuple(re.findall(_AXIS_NAME, only_names)))
-
-    in_ax_pos = [
-        tuple(re.findall(_AXIS_POSITION, arg)) for arg in re.findall(_ARGUMENT, in_txt)
+    # Names and positions are read off pair by pair, so that a name which merely
+    # contains a position word (e.g. "Xleft") is not mangled
+    in_args = [_split_names_and_positions(arg) for arg in re.findall(_ARGUMENT, in_txt)]
+    out_args = [
+        _split_names_and_positions(arg) for arg in re.findall(_ARGUMENT, out_txt)
     ]
-    out_ax_pos = [
-        tuple(re.findall(_AXIS_POSITION, arg)) for arg in re.findall(_ARGUMENT, out_txt)
-    ]
+    in_ax_names = [names for names, _ in in_args]
+    out_ax_names = [names for names, _ in out_args]
+    in_ax_pos = [pos for _, pos in in_args]
+    out_ax_pos = [pos for _, pos in out_args]
 
     return in_ax_names, in_ax_pos, out_ax_names, out_ax_pos
 
@@ -277,15 +276,9 @@ def _parse_signature_from_type_hints(
             if hasattr(hint, "__metadata__")
         ]
 
-        out_ax_names = []
-        for arg in return_annotations:
-            # Delete the axis positions so they aren't matched as axis names
-            only_names = re.sub(_AXIS_POSITION, "", arg)
-            out_ax_names.append(tuple(re.findall(_AXIS_NAME, only_names)))
-
-        out_ax_pos = [
-            tuple(re.findall(_AXIS_POSITION, arg)) for arg in return_annotations
-        ]
+        out_args = [_split_names_and_positions(arg) for arg in return_annotations]
+        out_ax_names = [names for names, _ in out_args]
+        out_ax_pos = [pos for _, pos in out_args]
 
     # Now do input args
     arg_annotations = [
@@ -294,13 +287,9 @@ def _parse_signature_from_type_hints(
 
     # TODO check number of annotations?
 
-    in_ax_names = []
-    for arg in arg_annotations:
-        # Delete the axis positions so they aren't matched as axis names
-        only_names = re.sub(_AXIS_POSITION, "", arg)
-        in_ax_names.append(tuple(re.findall(_AXIS_NAME, only_names)))
-
-    in_ax_pos = [tuple(re.findall(_AXIS_POSITION, arg)) for arg in arg_annotations]
+    in_args = [_split_names_and_positions(arg) for arg in arg_annotations]
+    in_ax_names = [names for names, _ in in_args]
+    in_ax_pos = [pos for _, pos in in_args]
 
     # Do a sanity check before going any further
     str_signature = str(
